@@ -507,3 +507,31 @@ mut("c17-swap-second-index-unchecked", "C17",
     ("src/lut.rs",
      "        self.check_var(ind1);\n        self.check_var(ind2);\n        swap_inplace(self.num_vars, self.table.as_mut(), ind1, ind2);",
      "        self.check_var(ind1);\n        swap_inplace(self.num_vars, self.table.as_mut(), ind1, ind2);"))
+
+# ---------------------------------------------------------------- C18 (feature optim-mip; the baseline tests do not build it)
+rev("c18-before-esop-filter-fix", "C18", "tree before the fix of D7 (ESOP candidate filter drops single positive literals)", "dd3d487")
+mut("c18-one-or-too-many-free", "C18",
+    "SOP model: the OR count constraint allows two terms per output for free",
+    ("src/sop/optim/mip.rs",
+     "            self.constraints.push((num_or - &num_cubes + 1).geq(0));",
+     "            self.constraints.push((num_or - &num_cubes + 2).geq(0));"))
+mut("c18-ecube-cost-uses-lits", "C18",
+    "SOP model: the objective charges exclusive cubes by literal count instead of gate count",
+    ("src/sop/optim/mip.rs",
+     "            expr += (self.ecubes[i].num_gates() as i32 * self.xor_cost) * self.ecube_used[i];",
+     "            expr += (self.ecubes[i].num_lits() as i32 * self.xor_cost) * self.ecube_used[i];"))
+mut("c18-offset-skipped-last-function", "C18",
+    "SOP model: the off-set constraints are not generated for the last of several functions",
+    ("src/sop/optim/mip.rs",
+     "        for (j, f) in self.functions.iter().enumerate() {\n            for (i, c) in self.cubes.iter().enumerate() {\n                if !c.implies_lut(f) {",
+     "        for (j, f) in self.functions.iter().enumerate() {\n            if j > 0 && j + 1 == self.functions.len() {\n                continue;\n            }\n            for (i, c) in self.cubes.iter().enumerate() {\n                if !c.implies_lut(f) {"))
+mut("c18-ecube-candidates-3lits", "C18",
+    "candidate exclusive cubes are restricted to 3 or more variables",
+    ("src/sop/optim.rs",
+     "    cubes.retain(|c| c.num_lits() >= 2);",
+     "    cubes.retain(|c| c.num_lits() >= 3);"))
+mut("c18-esop-shared-cube-not-charged", "C18",
+    "ESOP model: the cover constraint linking a cube's use in an output to its cost is only generated for the first output",
+    ("src/sop/optim/mip.rs",
+     "    fn add_cover_constraints(&mut self) {\n        for j in 0..self.functions.len() {\n            for i in 0..self.cubes.len() {\n                self.constraints\n                    .push((self.cube_used_in_fn[i][j] - self.cube_used[i]).leq(0));\n            }\n        }\n    }\n\n    /// Add a xor constraint",
+     "    fn add_cover_constraints(&mut self) {\n        for j in 0..std::cmp::min(1, self.functions.len()) {\n            for i in 0..self.cubes.len() {\n                self.constraints\n                    .push((self.cube_used_in_fn[i][j] - self.cube_used[i]).leq(0));\n            }\n        }\n    }\n\n    /// Add a xor constraint"))
